@@ -29,10 +29,10 @@ RECV = {
     "iter.rs": ["[1,2].iter()", "'ab'.iter()", "3.times()", "({1:2}).iter()"], "list.rs": ["[1,2,3]", "[]"],
     "map.rs": ["({1: 2})"], "method.rs": ["[1].push", "Object().str", "A0().m"], "native.rs": ["print"],
     "nil.rs": ["nil"], "number.rs": ["5", "1.5"], "object.rs": ["Object()", "A0()"],
-    "string.rs": ["'abc'", "''", "'héllo'"], "tuple.rs": ["(1,2)", "()"],
+    "string.rs": ["'abc'", "''", "'héllo'", "'é'", "'日本'"], "tuple.rs": ["(1,2)", "()"],
     "stdout.rs": ["stdout"], "stderr.rs": ["stderr"], "stdin.rs": ["stdin"],
 }
-ARGS = ["nil", "true", "0", "-1", "1.5", "(0/0)", "1e300", "''", "'a'", "'é'", "[]", "[1]", "()", "({})", "(|| 1)",
+ARGS = ["nil", "true", "0", "-1", "-2", "1.5", "(0/0)", "1e300", "''", "'a'", "'é'", "[]", "[1]", "()", "({})", "(|| 1)",
         "(|a| a)", "(|a, b| a)", "Object", "Object()", "chan(1)", "[1].iter()", "print", "[1].push", "Error('e')", "math"]
 PRE = ("import std.math; import std.regexp; import std.env; import std.io.stdio:{stdout, stderr, stdin}; import std.io.fs; "
        "fn fnx() { 1 } class A0 { m() { 1 } }\n")
@@ -433,7 +433,7 @@ class C16(Check):
             for n in range(0, top + 1):
                 if n == 3 and not th:
                     continue
-                alpha = ARGS if n < 3 else ARGS[:12] + ARGS[14:16]
+                alpha = ARGS if n < 3 else ARGS[:13] + ARGS[15:17]
                 for tup in itertools.product(alpha, repeat=n):
                     yield ("nat", callee, tup)
         meths = inherited_methods()
@@ -455,7 +455,7 @@ class C16(Check):
         for r in ["[1,2,3]", "(1,2)", "'abc'", "({1: 2})", "nil", "5", "Object()", "Object", "print", "chan(1)", "[1].iter()"]:
             for a in ARGS:
                 yield ("idxget", r, a)
-                for b in ARGS[:12]:
+                for b in ARGS[:13]:
                     yield ("idxset", r, a, b)
                 yield ("prop", r, a)
         for name, body in REC:
